@@ -235,6 +235,27 @@ def c12_queries(i1: int, i2: int, i3: int, o1: int, o2: int, o3: int, j: int, oj
     return bool(nc.is_perfect_consonant(f)) == perf and bool(nc.is_imperfect_consonant()) == imp and bool(nc.is_consonant(f)) == cons and bool(nc.is_dissonant(f)) == (not cons_nf)
 
 
+def c12_consonance(i1: int, i2: int, i3: int, i4: int, f: bool) -> bool:
+    """consonance predicates == for-all-pairs of the pairwise predicate, on containers of 3 and 4 notes
+    (octaves 1, 3, 5, 7 keep the pitches increasing for every spelling in the pool)"""
+    pool = P["pool"]
+    k = P["k"]
+    names = [pick(pool, x) for x in (i1, i2, i3, i4)[:k]]
+    nc = NoteContainer()
+    nc.notes = [Note(n, 1 + 2 * j) for j, n in enumerate(names)]
+    pairs = [(names[a], names[b]) for a in range(k) for b in range(a + 1, k)]
+
+    def m(a, b):
+        return (pc(b) - pc(a)) % 12
+
+    f = fork(f)
+    perf = all(m(a, b) in (0, 7) or (f and m(a, b) == 5) for a, b in pairs)
+    imp = all(m(a, b) in (3, 4, 8, 9) for a, b in pairs)
+    cons = all((m(a, b) in (0, 7) or (f and m(a, b) == 5)) or m(a, b) in (3, 4, 8, 9) for a, b in pairs)
+    cons_nf = all((m(a, b) in (0, 7) or ((not f) and m(a, b) == 5)) or m(a, b) in (3, 4, 8, 9) for a, b in pairs)
+    return bool(nc.is_perfect_consonant(f)) == perf and bool(nc.is_imperfect_consonant()) == imp and bool(nc.is_consonant(f)) == cons and bool(nc.is_dissonant(f)) == (not cons_nf)
+
+
 ROOTS = [l + a for l in T.LETTERS for a in ("", "#", "b")]
 CH = sorted(RC.FORMULAS)
 
@@ -319,6 +340,12 @@ def claims(tier):
     for fm in range(5):
         cl.append(Claim("add_many[form=%d]" % fm, c12_add_many, params=par, group="c12_add_many", pre=[lambda i1, i2, o1, o2, j1, j2, q1, q2, form, fm=fm: 0 <= i1 < npp and 0 <= i2 < npp and 1 <= o1 <= 8 and 1 <= o2 <= 8 and 0 <= j1 < npp and 0 <= j2 < npp and 0 <= q1 <= 9 and 0 <= q2 <= 9 and form == fm], timeout=1200 if q else 3000, bounds="pre-state 2 notes; two added notes (names from %r, octaves symbolic) given as %s" % (par["pool"], ["list of Notes", "[name, oct] pairs", "container", "'+' list of mixed forms", "'+' container"][fm])))
     cl.append(Claim("add_bare_list", c12_add_bare_list, params={"pool": pool}, group="c12_add_bare_list", pre=[lambda j1, j2, j3: 0 <= j1 < np_ and 0 <= j2 < np_ and 0 <= j3 < np_], timeout=1200 if q else 3000, bounds="NoteContainer([n1, n2, n3]) and '+' from empty, bare names from %r" % (pool,)))
+    cpool = ["C", "E", "F", "G", "A", "B#", "Eb", "F#"] if q else ["C", "D", "E", "F", "G", "A", "B", "B#", "Eb", "F#", "Cb", "Ab"]
+    for i0 in range(len(cpool)):
+        cl.append(Claim("consonance3[%s]" % cpool[i0], c12_consonance, params={"pool": cpool, "k": 3, "i0": i0}, group="c12_consonance", pre=[lambda i1, i2, i3, i4: i1 == P["i0"] and 0 <= i2 < len(P["pool"]) and 0 <= i3 < len(P["pool"]) and i4 == 0], timeout=1200 if q else 3000, bounds="three-note containers, first name %s, other names from %r: four consonance predicates == for all pairs" % (cpool[i0], cpool)))
+    if not q:
+        for i0 in range(len(cpool)):
+            cl.append(Claim("consonance4[%s]" % cpool[i0], c12_consonance, params={"pool": cpool, "k": 4, "i0": i0}, group="c12_consonance", pre=[lambda i1, i2, i3, i4: i1 == P["i0"] and 0 <= i2 < 6 and 0 <= i3 < len(P["pool"]) and 0 <= i4 < len(P["pool"])], timeout=3000, bounds="four-note containers, first name %s" % cpool[i0]))
     cl.append(Claim("probe_add_bare", c12_add_bare, params={"k": 1, "pool": POOL_T, "exclude_known": False}, group="c12_add_bare", pre=[], probe_only=True))
     cl.append(Claim("probe_add_bare_list", c12_add_bare_list, params={"pool": POOL_T, "exclude_known": False}, group="c12_add_bare_list", pre=[], probe_only=True))
     step = 13 if q else 9
